@@ -25,6 +25,12 @@ for p in sorted(glob.glob(os.path.join(V, "props", "C*.json"))):
     e = engines.setdefault(d["engine"], {"name": d["engine"], "path": "harness/src/bin/%s.rs + lean/Driver" % d["harness_bin"], "serves_properties": [], "kind_free_text": "correspondence harness (real crate, hooks on) + Lean model driver engine `%s`" % d["engine"]})
     e["serves_properties"].append(pid)
 engines["lean-proofs"] = {"name": "lean-proofs", "path": "lean/ActixNet", "serves_properties": sorted(claimed), "kind_free_text": "Lean 4 models, lemmas and property theorems; tools/extract.py regenerates Generated/Src.lean from /repo"}
+import subprocess
+try:
+    out = subprocess.run(["git", "-C", "/repo", "log", "--format=%h %s"], capture_output=True, text=True).stdout
+    base["hooks"]["source_commits"] = [l.split(" ", 1)[0] for l in out.splitlines() if "verif hooks" in l][::-1]
+except Exception:
+    pass
 na_reasons = base.get("not_applicable_reasons", {})
 m = {
     "version": 1,
